@@ -15,6 +15,7 @@ class GhostMixin:
         self.g_enc = 0
         self.g_dec = 0
         self.g_enc_log = []
+        self.ghost_blocks = []
 
     def ghost_emit(self, frame_ref):
         self.heap.get(self.g_out).items.append(frame_ref)
